@@ -22,7 +22,7 @@ ASSUME = [
     "(features computed with e2e_pb2 directly), encryption/decryption of message stanzas (C03; outgoing messages are "
     "observed where they leave the protocol group), the axolotl layers' own key-upload/fetch iq traffic (ignored in "
     "comparisons), error replies without an error callback (C08)",
-    "the model describes the code with fixes/C06-account-ib-return.patch, fixes/C06-unregister-iq-routed.patch and "
+    "the model describes the code with fixes/C06-unregister-iq-routed.patch and "
     "fixes/C07-encrypt-ack-participant.patch applied (variant `repaired`); the unrepaired variant is modelled too and "
     "named in the replay when the tree behaves like it",
 ]
@@ -37,7 +37,7 @@ def run(ctx):
     profile = R.make_profile(ctx.scratch)
     stats = C.new_stats()
     quick = ctx.tier == "quick"
-    nvec = 3 if quick else 24
+    nvec = 3 if quick else 12
     C.sweep(ctx, model, table, lambda k: True, nvec, profile, stats, judge_answers=False)
     C.reply_sweep(ctx, model, 1 if quick else 6, profile, stats)
     C.retry_sweep(ctx, model, 2 if quick else 20, profile, stats)
